@@ -39,6 +39,12 @@ Proof.
 Qed.
 Print Assumptions c04_decode_safe.
 
+(* 3'. decoding arbitrary bytes always ends with a definite outcome — a value or an exception; the model's fuel (which only bounds
+       nesting depth, never above the number of bytes) is never exhausted *)
+Theorem c04_decode_total : forall P bs, load P bs <> OutOfFuel.
+Proof. exact load_total. Qed.
+Print Assumptions c04_decode_total.
+
 (* 4. tie to the generated facts of the current source tree *)
 Theorem c04_tie :
   Gen_brine.bytes_ladder = Brine.str_ladder /\ Gen_brine.tuple_ladder = Brine.tup_ladder /\ Gen_brine.int_ladder = Brine.int_ladder
